@@ -425,13 +425,18 @@ impl ProcfsHandle {
                 // materialise for unrelated reasons. If this open found a
                 // symlink after all, do not hand out the link itself (unless
                 // that is what the caller asked for).
-                if !oflags.contains(OpenFlags::O_NOFOLLOW)
-                    && file
+                if !oflags.contains(OpenFlags::O_NOFOLLOW) {
+                    // (If we cannot tell, do not hand the descriptor out.)
+                    let is_symlink = file
                         .metadata()
                         .map(|meta| meta.file_type().is_symlink())
-                        .unwrap_or(false)
-                {
-                    return Err(err).wrap("readlink probe missed a symlink target");
+                        .map_err(|err| ErrorImpl::OsError {
+                            operation: "check whether the opened procfs file is a symlink".into(),
+                            source: err,
+                        })?;
+                    if is_symlink {
+                        return Err(err).wrap("readlink probe missed a symlink target");
+                    }
                 }
                 return Ok(file);
             }
